@@ -74,16 +74,17 @@ func c09Universe(arity int) [][]string {
 	case 0:
 		return [][]string{{}}
 	case 1:
-		return [][]string{{"a"}, {"b"}, {""}, {"a-"}, {"-a"}, {"a\\-"}}
+		return [][]string{{"a"}, {"b"}, {""}, {"a-"}, {"-a"}, {"a\\-"}, {"-"}}
 	case 2:
 		// two of the tuples differ only in where a hyphen sits relative to the label boundary
-		return [][]string{{"a", "a"}, {"a-", "b"}, {"a", "-b"}, {"b", "b"}, {"", "a"}, {"a", ""}}
+		// ... and two more differ only in which side of the boundary a leading hyphen is on
+		return [][]string{{"a", "a"}, {"a-", "b"}, {"a", "-b"}, {"b", "b"}, {"", "a"}, {"a", ""}, {"-", "a"}, {"", "-a"}}
 	}
 	var u [][]string
 	for i := 0; i < 4; i++ {
 		u = append(u, []string{vals[i%3], vals[(i/3)%3], vals[(i+1)%3]})
 	}
-	u = append(u, []string{"a-", "", "b"}, []string{"a", "-", "b"})
+	u = append(u, []string{"a-", "", "b"}, []string{"a", "-", "b"}, []string{"a", "", "-b"})
 	return u
 }
 
@@ -334,7 +335,7 @@ func propC09(e *Env) {
 					e.Probe("delete_absent")
 				}
 			case 7: // expiry mark (absent: error)
-				exp := time.Duration(1+e.Choose("gen", 5)) * time.Minute
+				exp := time.Duration(e.Choose("gen", 6)) * time.Minute // 0 = "never", also a mark
 				desc = fmt.Sprintf("ExpireDatum(%v)%q", exp, t)
 				err := m.ExpireDatum(exp, cp(t)...)
 				if j := mo.find(t); j >= 0 {
@@ -401,6 +402,47 @@ func propC09(e *Env) {
 					e.Fail("value", "RemoveOldestDatum removed %q (t=%d) although an older datum (t=%d) exists", mo.entries[removed].labels, mo.entries[removed].ts, min)
 				}
 				mo.entries = append(mo.entries[:removed], mo.entries[removed+1:]...)
+			case 10: // several tasks look the same tuple up at once (creating it if absent): one datum
+				k := 2 + e.Choose("gen", 2)
+				desc = fmt.Sprintf("%d concurrent GetDatum%q", k, t)
+				type res struct {
+					d   datum.Datum
+					err error
+				}
+				rc := make(chan res)
+				for c := 0; c < k; c++ {
+					tc := cp(t)
+					simrt.Go(simrt.KHarness, func() {
+						d, err := m.GetDatum(tc...)
+						simrt.Send(rc, res{d, err})
+					})
+				}
+				var first datum.Datum
+				for c := 0; c < k; c++ {
+					r, _ := simrt.Recv(rc)
+					if r.err != nil {
+						e.Fail("arity-accepted", "%s failed for a tuple of the right length: %v", desc, r.err)
+						break
+					}
+					if first == nil {
+						first = r.d
+					} else if r.d != first {
+						e.Fail("enum-dup", "%s: two of the lookups returned different datum objects for the same tuple", desc)
+					}
+				}
+				e.Probe("concurrent_lookup")
+				if e.Failed() {
+					break
+				}
+				if j := mo.find(t); j >= 0 {
+					if mo.entries[j].d != first {
+						e.Fail("value", "%s returned a different datum than before", desc)
+					}
+				} else {
+					mo.entries = append(mo.entries, &mEntry{labels: cp(t), d: first})
+					e.Probe("create")
+					e.Probe("concurrent_create")
+				}
 			default: // let time pass
 				d := time.Duration(1+e.Choose("gen", 5000)) * time.Millisecond
 				desc = fmt.Sprintf("sleep %v", d)
